@@ -10,6 +10,7 @@ import Zeno.Props.C15
 import Zeno.Props.C04
 import Zeno.Props.C01
 import Zeno.Props.C02
+import Zeno.Props.C03
 import Zeno.Props.C05
 import Zeno.Props.C06
 import Zeno.Props.C08
